@@ -1,3 +1,4 @@
+#include <limits>
 #include <symengine/visitor.h>
 
 namespace SymEngine
@@ -323,6 +324,12 @@ public:
         if (n < 0)
             return _coef_dict_add_term(
                 multiply, div(one, expand_if_deep(pow(_base, integer(-n)))));
+        // pow_expand takes the exponent as an `unsigned`: a larger exponent
+        // would be silently truncated (and the expansion is infeasible anyway)
+        if (not mp_fits_ulong_p(n)
+            or mp_get_ui(n) > std::numeric_limits<unsigned>::max())
+            throw SymEngineException(
+                "expand: the exponent of a sum does not fit 'unsigned int'.");
         RCP<const Add> base = rcp_static_cast<const Add>(_base);
         umap_basic_num base_dict = base->get_dict();
         if (!(base->get_coef()->is_zero())) {
